@@ -36,10 +36,75 @@ def mutations(r, b, tier):
     return out
 
 
+def nlri_decoders_directly(res, r, tier):
+    """C11 names every NLRI decoder, also those no attribute decoder dispatches to in this tree (IPv6 flowspec): every class
+    under yabgp/message/attribute/nlri whose `parse` takes the octets as its first argument is called directly with all
+    strings of up to 2 octets, edge-valued strings of 3 and 4, and short random strings.  Returning or raising are both fine
+    here (the "never raises" clause is about Update.parse); not finishing within the CPU budget is not."""
+    import importlib
+    import pkgutil
+    import inspect
+    from lib.base import with_budget
+    import yabgp.message.attribute.nlri as pkg
+    inputs = [bytes(t) for n in (0, 1, 2) for t in itertools.product(range(256), repeat=n)]
+    inputs += [bytes(t) for n in (3, 4) for t in itertools.product(G_EDGE, repeat=n)]
+    inputs += [bytes(r.getrandbits(8) for _ in range(r.choice([3, 5, 8, 13, 21, 40]))) for _ in range(300 if tier == 'quick' else 6000)]
+    if tier == 'quick':
+        inputs = inputs[:257] + r.sample(inputs[257:], 2500)
+    found = 0
+    for mi in pkgutil.walk_packages(pkg.__path__, pkg.__name__ + '.'):
+        try:
+            mod = importlib.import_module(mi.name)
+        except Exception:  # noqa
+            continue
+        for cname, cls in inspect.getmembers(mod, inspect.isclass):
+            if cls.__module__ != mod.__name__ or 'parse' not in cls.__dict__:
+                continue
+            fn = getattr(cls, 'parse')
+            try:
+                params = [p for p in inspect.signature(fn).parameters.values()]
+            except (TypeError, ValueError):
+                continue
+            if not params or params[0].kind not in (params[0].POSITIONAL_ONLY, params[0].POSITIONAL_OR_KEYWORD):
+                continue
+            if any(p.default is p.empty and p.kind in (p.POSITIONAL_ONLY, p.POSITIONAL_OR_KEYWORD) for p in params[1:]):
+                continue        # needs more than the octets
+            found += 1
+            hangs = 0
+            i = 0
+            while i < len(inputs) and hangs < 2:
+                chunk = inputs[i:i + 400]
+
+                def work(chunk=chunk, fn=fn):
+                    for b in chunk:
+                        try:
+                            fn(b)
+                        except Exception:   # noqa
+                            pass
+                st, _ = with_budget(I.BUDGET, work)
+                if st == 'hang':
+                    for b in chunk:
+                        def one(b=b, fn=fn):
+                            try:
+                                fn(b)
+                            except Exception:   # noqa
+                                pass
+                        s1, _ = with_budget(I.BUDGET, one)
+                        if s1 == 'hang':
+                            hangs += 1
+                            res.fail('C11', 'NLRI decoder %s.%s.parse does not finish within the CPU budget' % (mod.__name__, cname),
+                                     {'decoder': '%s.%s.parse' % (mod.__name__, cname), 'hex': b.hex()}, key='hang')
+                            break
+                i += 400
+            res.stats.case(('nlri-direct', mod.__name__, cname), sample=None)
+    res.stats.hit('nlri_decoders_called_directly', found)
+
+
 def run(seed, tier, driver):
     res = SuiteResult('decoders')
     r = rng_for(seed, 'decoders', tier)
     hangs = {}
+    nlri_decoders_directly(res, r, tier)
 
     def check_update(b, asn4, addpath, origin):
         io = I.upd_parse(b, asn4, addpath)
